@@ -113,7 +113,9 @@ class Universe:
             return ("D", self.oid(o), [("T", 0, [self.enc(k), self.enc(v)]) for k, v in o.items()])
         if t in OPAQUE:
             return ("O", self.oid(o), [self.enc(x) for x in contents(o)])
-        raise TypeError("value outside the generated universe: %r" % (o,))
+        # a value no generated program can produce (e.g. None where a result should be): encoded as a foreign atom so that the comparison
+        # with direct evaluation reports it, instead of the harness crashing
+        return ("A", 0, -9000 - (hash(repr(o)) % 1000))
 
     def sval(self, o):
         """Python object -> Coq term of type sval"""
@@ -477,6 +479,8 @@ def run(ctx):
     one_shot(ctx, uberjob)
     opaque_arguments(ctx, uberjob)
     equal_callables(ctx, uberjob)
+    import planlevel
+    planlevel.equal_constants(ctx, uberjob, False, lambda key, what, replay: ctx.fail(key, what, replay))
     timing(ctx, uberjob)
     Plan._call, Plan.lit, rp.run_function_on_graph = w_call, w_lit, w_rfg
     try:
